@@ -27,6 +27,7 @@ HARNESSES = [
     H("k_probes_from_flags", "K-def-flags", ["C10"], fns=["probes_from_flags"]),
     H("k_with_params_flags", "K-def-flags", ["C01", "C09", "C10", "C11"],
       fns=["CompressorOxide::with_params", "ParamsOxide::new", "DictOxide::new", "change_window_bits_from_format"], cost=20),
+    H("k_set_format_and_level", "K-def-flags", ["C01", "C09", "C10", "C11"], fns=["CompressorOxide::set_format_and_level", "CompressorOxide::set_compression_level_raw", "ParamsOxide::update_flags", "DictOxide::update_flags", "window_bits_from_flags", "CompressorOxide::data_format"], cost=30),
     # ---- K-zhdr (compressor side of the zlib header) ----
     H("k_add_fcheck", "K-zhdr", ["C09"], fns=["add_fcheck"]),
     H("k_header_from_flags", "K-zhdr", ["C09", "C11"], fns=["header_from_flags", "header_from_level", "zlib_level_from_flags", "add_fcheck"]),
@@ -174,6 +175,11 @@ HARNESSES = [
         note="update_adler32 replaced by a model (the checksum algorithm is not verified); window re-allocated as Box::new arrays (same all-zero state); ~10 min, 7 GB")
       for (n, cfg) in (("k_stored_compress_end_to_end_zlib3", "zlib/default/15 bits, 3 input bytes"), ("k_stored_compress_end_to_end_raw1", "raw/Huffman-only/12 bits, 1 input byte"),
                        ("k_stored_compress_end_to_end_zlib0", "zlib/fixed/9 bits, empty input"))],
+    H("k_callback_sink_flush_output", "K-sink", ["C01", "C02", "C14"], fns=["CallbackOxide::flush_output", "CallbackFunc::flush_output", "CallbackOxide::new_callback_func", "CallbackOxide::update_size"], cost=40, timeout=900,
+      strength="F (every produced length 0..=OUT_BUF_SIZE-16, status, pending counter, callback verdict)"),
+    H("k_compress_to_output_protocol", "K-sink", ["C02", "C12", "C14"], fns=["compress_to_output", "compress_inner (callback sink)", "flush_output_buffer (callback sink)"], cost=60, timeout=900,
+      strength="B(in<=4 bytes; complete in configuration, history, flush, engine results)",
+      note="compress_stored/compress_fast/compress_normal/flush_block/update_adler32 replaced by the recording contract models of K-dispatch; <[u16]>::fill by its std contract model"),
     # ---- K-huff ----
     H("k_enforce_max_code_size_kraft", "K-huff", ["C10"], fns=["HuffmanOxide::enforce_max_code_size"], cost=50, timeout=900,
       strength="B(<= 9 codes, tree depths <= 9, limit 7; complete over every depth histogram of a full binary tree in that range)"),
